@@ -93,7 +93,22 @@ Definition is_up (c : conn) : bool := match c with CUp => true | _ => false end.
    only); c_log: a log file is set (readWriter = streamLogger).  CFresh stands for
    any transport object without a connection: XMPPTransport with readWriter == nil,
    WebsocketTransport with wsConn == nil; both return an error and write nothing. *)
-Record config := mkC { c_role : role; c_sm : bool; c_log : bool; c_conn : conn }.
+Record config := mkC { c_role : role; c_sm : bool; c_log : bool; c_conn : conn; c_ws : bool }.
+(* c_ws: the transport is the WebsocketTransport (clients only), whose Write is
+   its own: see ws_write.  CFresh also stands for a client whose send gate is
+   closed (a connection attempt is in progress or has failed: ErrNoSession):
+   an error, nothing written, the held packet dropped again. *)
+
+(* WebsocketTransport.Write: with a log file, ONE log write "SEND:\n" ++ p ++ "\n\n"
+   BEFORE the socket, its result ignored; then one text message carrying p
+   (wsConn.Write); the byte count returned is len(p) whatever happened, the error
+   is the socket's.  No short-write check: there is no count to check.  s_sock
+   is then the list of MESSAGES. *)
+Definition ws_write (logging : bool) (so lo : oracle) (st : state) (p : str)
+  : state * option werr :=
+  let st1 := if logging then fst (log_write lo st (log_prefix ++ p ++ log_sep)) else st in
+  let '(st2, r) := sock_write so st1 p in
+  (st2, if w_is_err r then Some ESock else None).
 
 (* XMPPTransport.Write = readWriter.Write (an error when readWriter is nil);
    without a logger readWriter is the
@@ -101,6 +116,7 @@ Record config := mkC { c_role : role; c_sm : bool; c_log : bool; c_conn : conn }
 Definition transport_write (cfg : config) (so lo : oracle) (st : state) (p : str)
   : state * option werr :=
   if is_up (c_conn cfg) then
+    if c_ws cfg then ws_write (c_log cfg) so lo st p else
     if c_log cfg then logger_write so lo st p
     else let '(st', r) := sock_write so st p in
          (st', if w_is_err r then Some ESock else None)
@@ -108,7 +124,12 @@ Definition transport_write (cfg : config) (so lo : oracle) (st : state) (p : str
 
 (* ------------------------------------------------------------------ ops *)
 
-Inductive iqtype := TGet | TSet | TOther.   (* TOther: result, error, anything else *)
+(* TOther: result, error, anything else (ErrCanOnlySendGetOrSetIq); TPending: get or
+   set, but a request with the same id is still awaiting its response
+   (ErrIQIdAlreadyPending): neither registers nor writes anything *)
+Inductive iqtype := TGet | TSet | TOther | TPending.
+Definition iq_refused (t : iqtype) : bool :=
+  match t with TGet | TSet => false | TOther | TPending => true end.
 
 Inductive op :=
 | OSend (data : str) (nonza : bool)   (* nonza: the packet is an SMRequest or SMAnswer *)
@@ -122,7 +143,7 @@ Inductive result :=
 | RNil                  (* nil *)
 | RErr (e : werr)       (* the transport's error, returned as is *)
 | RWrapped (e : werr)   (* Component.Send: "cannot send packet " + err *)
-| RReject               (* ErrCanOnlySendGetOrSetIq *)
+| RReject               (* ErrCanOnlySendGetOrSetIq / ErrIQIdAlreadyPending *)
 | RNotConn.             (* "client/component is not connected" *)
 
 Definition push_if (b : bool) (st : state) (data : str) : state :=
@@ -180,10 +201,7 @@ Definition step (cfg : config) (so lo : oracle) (st : state) (o : op) : state * 
   | OSend d nz => send cfg so lo st d nz
   | OSendRaw s nz => send_raw cfg so lo st s nz
   | OSendIQ d t =>
-      match t with
-      | TOther => (st, RReject)
-      | _ => send cfg so lo st d false
-      end
+      if iq_refused t then (st, RReject) else send cfg so lo st d false
   end.
 
 Fixpoint run (cfg : config) (so lo : oracle) (st : state) (ops : list op)
@@ -199,14 +217,14 @@ Fixpoint run (cfg : config) (so lo : oracle) (st : state) (ops : list op)
 (* does the op reach a socket write? *)
 Definition attempts (cfg : config) (o : op) : bool :=
   match o with
-  | OSendIQ _ TOther => false
+  | OSendIQ _ t => negb (iq_refused t) && is_up (c_conn cfg)
   | _ => is_up (c_conn cfg)
   end.
 
 (* does the op get as far as transport.Write (after the queue push)? *)
 Definition reaches (cfg : config) (o : op) : bool :=
   match o with
-  | OSendIQ _ TOther => false
+  | OSendIQ _ t => negb (iq_refused t) && match c_conn cfg with CNone => false | _ => true end
   | _ => match c_conn cfg with CNone => false | _ => true end
   end.
 
@@ -217,10 +235,15 @@ Definition writes_of (cfg : config) (ops : list op) : list str :=
 (* would the transport write of p succeed in state st? *)
 Definition write_ok (cfg : config) (so lo : oracle) (st : state) (p : str) : bool :=
   let rs := so (length (s_sock st)) in
+  if c_ws cfg then negb (w_is_err rs) else
   if c_log cfg then
     let rl := lo (S (length (s_log st))) in
     negb (w_is_err rs) && w_whole rs p && negb (w_is_err rl) && w_whole rl p
   else negb (w_is_err rs).
+
+(* does the transport itself check the byte count of the socket write?  Only the
+   stream logger of the TCP transport does. *)
+Definition checks_count (cfg : config) : bool := negb (c_ws cfg) && c_log cfg.
 
 (* a writer that honours the io.Writer contract never returns n < len p with a
    nil error *)
